@@ -20,6 +20,7 @@ PROFILE = {
     "max_dur": 12,
     "max_delay_ticks": 24,
     "placements": True,
+    "attempt_timeout": 0.2,
 }
 
 APIS_CALL_ONLY = ["Retry.context", "Policy.context", "RetryPolicy.context", "decorator"]
